@@ -438,6 +438,15 @@ class World:
             out.append(postprocess_bytes(data) if kd.get("pp") else data)
         return out
 
+    def resolve_foreign(self, name):
+        """'@k<i>' inside a foreign-file name stands for the cache file name of key i (a user file such as
+        a backup copy 'cachefile_<md5>_cachefile.bak' or 'old-cachefile_<md5>_cachefile')."""
+        m = re.search(r"@k(\d+)", name)
+        if m:
+            i = int(m.group(1)) % len(self.keys)
+            name = name.replace(m.group(0), cache_file_name(self.keys[i]))
+        return name
+
     def sync_remote_files(self):
         """file:// sources mirror the store."""
         self.fs.h_mkdirs(SIM_REMOTE_DIR)
@@ -493,6 +502,35 @@ class World:
     def _purge(self):
         return self.cache.purge()
 
+    # ---------------------------------------------------- fine-grained mode
+    def _install_tracer(self):
+        """Pre-emption at every source line of the file-cache package (not only at simulated I/O) while
+        more than one actor is alive: makes check-then-act races on shared Python state reachable."""
+        import threading
+        prefix = posixpath.dirname(self.co.__file__) + "/"
+        sched = self.sched
+
+        def local(frame, event, arg):
+            if event == "line" and sched.current is not None and not sched.crashed:
+                if len(sched.actors) > 1 and sched.live_workers():
+                    sched("line", "%s:%d" % (posixpath.basename(frame.f_code.co_filename), frame.f_lineno), 0)
+            return local
+
+        def tracer(frame, event, arg):
+            if event == "call" and frame.f_code.co_filename.startswith(prefix):
+                return local
+            return None
+
+        self._tracer = tracer
+        threading.settrace(tracer)
+        sys.settrace(tracer)
+
+    def _remove_tracer(self):
+        import threading
+        threading.settrace(None)
+        sys.settrace(None)
+        self._tracer = None
+
     # ------------------------------------------------------------------- run
     def run(self):
         gc_was = gc.isenabled()
@@ -506,6 +544,9 @@ class World:
         warnings_ctx.__enter__()
         warnings.simplefilter("ignore")
         self.sched.attach_client()
+        self._tracer = None
+        if self.knobs.get("fine_grained"):
+            self._install_tracer()
         try:
             self._run_inner()
         except HarnessAbort as e:
@@ -514,6 +555,8 @@ class World:
             self.harness = "unsupported: %s" % e
         finally:
             try:
+                if self._tracer is not None:
+                    self._remove_tracer()
                 self._reap_quietly()
             finally:
                 self.sched.detach_client()
@@ -593,6 +636,8 @@ class World:
         kind = op["op"]
         self.clock.advance(op.get("dt", 0))
         d.begin_op(op["id"])
+        if self._tracer is not None:
+            sys.settrace(self._tracer)  # a SimCrash raised inside the trace function switched it off
         self.fetchlog.op = op["id"]
         self.stats["ops"] += 1
         obs = Obs(op=op, kind=kind, result=None, exc=None, crashed=False)
@@ -723,8 +768,9 @@ class World:
                     f.read()
         elif kind == "FOREIGN":
             import os
-            name = op["name"]
+            name = self.resolve_foreign(op["name"])
             p = CACHE_DIR + "/" + name
+            obs.foreign_path = p
             if "/" in name:
                 os.makedirs(posixpath.dirname(p), exist_ok=True)
             if not self.fs.h_exists(p):
